@@ -13,7 +13,7 @@
 From Coq Require Import List ZArith NArith Bool.
 Import ListNotations.
 Require Import Gram.Model.Term Gram.Model.ParserPost Gram.Proofs.ReassocProofs.
-Require Gram.Proofs.ContentProofs.
+Require Gram.Proofs.ContentProofs Gram.Proofs.CompleteProofs.
 Require Import Gram.Model.Token Gram.Model.Grammar Gram.Gen.ParserSkeleton Gram.Gen.GrammarY Gram.Model.Parser Gram.Proofs.ParserProofs Gram.Proofs.SoundProofs.
 
 Theorem C07_skeleton_matches_grammar : forallb compat_nt all_nts = true.
@@ -162,4 +162,26 @@ Check C07_tree_content_without_hypothesis : forall toks memo t keep, ContentProo
   fst (fst (parse_stage1 toks memo)) = S1Tree t ->
   filter keep (ContentProofs.content (reassociate t)) = filter keep (ContentProofs.tok_content toks).
 Print Assumptions C07_tree_content_without_hypothesis.
+
+
+(* ACCEPTED IF AND ONLY IF A SENTENCE (Proofs/PegSem.v, GrammarTables.v, GrammarFacts.v, CompleteProofs.v): the converse of
+   parse_sound. The packrat parser with ordered choice and no backtracking over a committed alternative accepts EVERY
+   sentence of the grammar regenerated from grammar.y - a property of this grammar, not of packrat parsing: each ordered
+   choice lists the longer alternative first or alternatives the first two tokens tell apart (tables `P2`, FOLLOW table
+   `fo`, computed from the generated grammar and checked closed under its productions by vm_compute), and whatever may
+   follow a nonterminal cannot extend it. An abstract ordered-choice relation `pegR` is refined by the model for every fuel
+   and memo state (`parse_refines_peg`), and every derivation yields a `pegR` derivation (`peg_complete`). The one
+   non-local case is a parenthesised annotated definition `( x : a = b ; c ) -> d`, first tried as an annotated lambda and
+   as a function type. *)
+Theorem C07_accepted_iff_sentence : forall toks memo,
+  (exists t, fst (fst (parse_stage1 toks memo)) = S1Tree t) <-> derives Term (map pk toks).
+Proof. exact CompleteProofs.parse_accepts_iff_sentence. Qed.
+Check C07_accepted_iff_sentence : forall toks memo,
+  (exists t, fst (fst (parse_stage1 toks memo)) = S1Tree t) <-> derives Term (map pk toks).
+Print Assumptions C07_accepted_iff_sentence.
+
+Theorem C07_sentence_implies_accepted : forall toks memo, derives Term (map pk toks) -> exists t, fst (fst (parse_stage1 toks memo)) = S1Tree t.
+Proof. exact CompleteProofs.parse_complete_memo. Qed.
+Check C07_sentence_implies_accepted : forall toks memo, derives Term (map pk toks) -> exists t, fst (fst (parse_stage1 toks memo)) = S1Tree t.
+Print Assumptions C07_sentence_implies_accepted.
 
